@@ -58,7 +58,10 @@ TRUSTED = ["ast.literal_eval is modelled TOTALLY (Path/PathLit.v: tokenizer, exp
            "compared with the model, their round-trip failures (repr with a backslash escape) are counted and not reported; the self check of "
            "stringify_param is modelled for every key type but bytes",
            "object identities returned through the lru_cache and its hit / miss statistics are compared with the model but only recorded "
-           "(lru_calls:traces_whose_object_identities_and_cache_statistics_agree_with_the_model): a refactoring of the cache key is no violation"]
+           "(lru_calls:traces_whose_object_identities_and_cache_statistics_agree_with_the_model): a refactoring of the cache key is no violation",
+           "source tie (in addition to the correspondence, never instead of it): harness/translate/pathparse.py (Python ast -> Gallina; rules T1-T7 of "
+           "coq/theories/Path/NOTES_tie.md) for _add_to_elements, _parse_path_to_elements, stringify_element and the constants GET / GETATTR / "
+           "DEFAULT_FIRST_ELEMENT of deepdiff/path.py; ast.literal_eval stays an oracle there"]
 ASSUMPTIONS = ["keys are atoms of Base/Value.v (str of any code points, int, half-integer float with |x| < 2^52, None, bool) in the theorems over "
                "Path/PathModel.v, and pvals of Path/PathLit.v (every binary64 float, every int) in the theorems over Path/PathXModel.v; "
                "list/tuple indexes are naturals",
@@ -441,15 +444,15 @@ def run_sequences(ctx, name, seqs):
                    "%s:model_unsupported(not compared)" % name)
 
 
-def exhaustive_single(ctx):
+def exhaustive_single(ctx, big=False):
     pool2 = list(all_strings(2))
     len3 = ["".join(t) for t in itertools.product(ALPHABET, repeat=3)]
-    if not ctx.thorough:
+    if not (ctx.thorough or big):
         r = random.Random(ctx.rng.randrange(1 << 30))
         len3 = r.sample(len3, 1500)
     keys = pool2 + len3
     ctx.note("exhaustive_string_keys", {"alphabet": [("U+%04X" % ord(c)) for c in ALPHABET], "max_len": 3,
-                                        "keys": len(keys), "exhaustive": bool(ctx.thorough),
+                                        "keys": len(keys), "exhaustive": bool(ctx.thorough or big),
                                         "quick_tier": "all of length <= 2 and 1500 seeded of length 3"})
     seqs = [([("k", s)], None) for s in keys]
     run_sequences(ctx, "single_key", seqs)
@@ -509,6 +512,38 @@ def mutate(rng, p):
     return "".join(p)
 
 
+def parser_string_cases(ctx, strs, label="parser_strings"):
+    """the correspondence cases (hand model, extended model) of _path_to_elements / extract / stringify_path on path strings"""
+    from deepdiff import extract
+    from deepdiff.path import stringify_path, _path_to_elements
+    obj_coq = values.to_coq(PARSE_OBJ)
+    cases, xcases = [], []
+    for p in strs:
+        try:
+            els = _path_to_elements(p, root_element=None)
+        except Exception as e:  # outside anything C09 talks about; the model has no such outcome
+            ctx.count(label + ":impl_raised_" + type(e).__name__)
+            continue
+        try:
+            ex = ["Some", canon_val(extract(PARSE_OBJ, p))]
+        except Exception:
+            ex = None
+        try:
+            sa = stringify_path(els)
+        except Exception:
+            continue
+        exp = [[[canon_or_nonatom(x), "G" if act == "GET" else "A"] for x, act in els], ex, sa]
+        ctx.seen(("pstr", p), nontrivial=len(els) > 0)
+        ctx.count(label + (":with_attr" if any(act != "GET" for _x, act in els) else ":get_only"))
+        cases.append(("c09_parse_case_or %s %s (%s)" % (core.coq_pystr(p), obj_coq, core.sx(exp)), exp, {"path_string": p}))
+        # the same string through the extended parser (total model of literal_eval): compared whenever the old one is not
+        xexp = ["ok", [[pv_canon(x), "G" if act == "GET" else "A"] for x, act in els], ["Some", sa]]
+        if any(isinstance(c[0], list) and c[0][0] == "o" for c in xexp[1]):
+            xexp[2] = None
+        xcases.append(("c09_xparse_or %s (%s)" % (core.coq_pystr(p), core.sx(xexp)), xexp, {"path_string": p}))
+    return cases, xcases
+
+
 def parser_strings(ctx, n):
     from deepdiff import extract
     from deepdiff.path import stringify_path, _path_to_elements
@@ -525,31 +560,7 @@ def parser_strings(ctx, n):
     for _ in range(n // 2):
         strs.append("root" + "".join(rng.choice(PATH_CHARS) for _ in range(rng.randint(1, 8))))
     strs = list(dict.fromkeys(strs))
-    obj_coq = values.to_coq(PARSE_OBJ)
-    cases, xcases = [], []
-    for p in strs:
-        try:
-            els = _path_to_elements(p, root_element=None)
-        except Exception as e:  # outside anything C09 talks about; the model has no such outcome
-            ctx.count("parser_strings:impl_raised_" + type(e).__name__)
-            continue
-        try:
-            ex = ["Some", canon_val(extract(PARSE_OBJ, p))]
-        except Exception:
-            ex = None
-        try:
-            sa = stringify_path(els)
-        except Exception:
-            continue
-        exp = [[[canon_or_nonatom(x), "G" if act == "GET" else "A"] for x, act in els], ex, sa]
-        ctx.seen(("pstr", p), nontrivial=len(els) > 0)
-        ctx.count("parser_strings:with_attr" if any(act != "GET" for _x, act in els) else "parser_strings:get_only")
-        cases.append(("c09_parse_case_or %s %s (%s)" % (core.coq_pystr(p), obj_coq, core.sx(exp)), exp, {"path_string": p}))
-        # the same string through the extended parser (total model of literal_eval): compared whenever the old one is not
-        xexp = ["ok", [[pv_canon(x), "G" if act == "GET" else "A"] for x, act in els], ["Some", sa]]
-        if any(isinstance(c[0], list) and c[0][0] == "o" for c in xexp[1]):
-            xexp[2] = None
-        xcases.append(("c09_xparse_or %s (%s)" % (core.coq_pystr(p), core.sx(xexp)), xexp, {"path_string": p}))
+    cases, xcases = parser_string_cases(ctx, strs)
     emit(ctx, "parser_strings", HEADER, cases)
     emit(ctx, "parser_strings(extended parser)", HEADER_ALL, xcases)
     emit_count(ctx, "parser_xunsup", HEADER_ALL, "count_xunsup", [core.coq_pystr(p) for p in strs], 200,
@@ -1987,6 +1998,148 @@ def witnesses(ctx):
         ctx.note("witness:" + key, why or "does not fail")
 
 
+# ---- source tie: the parser of deepdiff/path.py regenerated from the current source ---------------------
+# (harness/translate/pathparse.py -> DDGen.PathGen; coq/srctie/PathGenEquiv.v proves it equal to Path/PathModel.v;
+#  core.source_tie_step compiles both on every run)
+
+SOURCE_TIES = [{"name": "pathparse", "translator": "pathparse", "gen_module": "PathGen", "equiv": ["PathGenEquiv"],
+                "needs": ["Path.PathTieFacts", "Path.PathXProofs", "Properties.C09"], "sources": ["deepdiff/path.py"],
+                "fragment": "GET, GETATTR, DEFAULT_FIRST_ELEMENT, _add_to_elements, _parse_path_to_elements (the character "
+                            "automaton), stringify_element"}]
+
+TIE_ALPHA = ["[", "]", ".", "'", '"', "a", "1", ESC, " "]          # the alphabet of the bounded-exhaustive search
+
+TIE_SEARCH_HEADER = r'''From Coq Require Import List String ZArith NArith Bool.
+Import ListNotations.
+From DD Require Import Base.Sx Base.PyStr Base.Value Path.PathModel Path.PathShow Path.PathLit Path.PathLitShow
+  Path.PathXModel Path.PathXShow Path.PathTie.
+From DDGen Require Import PathGen.
+Local Open Scope N_scope.
+Definition LEx (e : pystr) : leres pval :=
+  match leval e with LxOk v => LeOk v | LxFail => LeCaught | LxRaise => LeRaises | LxUnsup => LeUnsup end.
+Definition sx_tout {A} (f : A -> sx) (r : tout A) : sx :=
+  match r with TDone x => SL [SA "ok"; f x] | TRaises => SA "RAISES" | TUnsup => SA "UNSUP" end.
+Definition h_sx (p : pystr) : sx := match elements p with Some els => SL [SA "ok"; sx_elements els] | None => SA "UNSUP" end.
+Definition g_sx (p : pystr) : sx := sx_tout sx_elements (g__parse_path_to_elements atom AStr LEh p None).
+Definition hx_sx (p : pystr) : sx :=
+  match elementsx p with XDone els => SL [SA "ok"; SL (map sx_xel els)] | XRaises => SA "RAISES" | XUnsup => SA "UNSUP" end.
+Definition gx_sx (p : pystr) : sx := sx_tout (fun els => SL (map sx_xel els)) (g__parse_path_to_elements pval PvStr LEx p None).
+(* the generated parser and the hand-written one differ on the path string p (either instance) *)
+Definition diff (p : pystr) : bool := negb (sx_eqb (g_sx p) (h_sx p)) || negb (sx_eqb (gx_sx p) (hx_sx p)).
+(* ... with a root element; stringify_element on the part after "root", with quote_str None and "'{}'" *)
+Definition root_el : element := (AStr (s2p "root"), GETATTR).
+Definition diff_root (p : pystr) : bool :=
+  negb (sx_eqb (sx_tout sx_elements (g__parse_path_to_elements atom AStr LEh p (Some root_el)))
+               (match elements p with Some els => SL [SA "ok"; sx_elements (root_el :: els)] | None => SA "UNSUP" end)).
+Definition diff_se (p : pystr) : bool :=
+  let s := skipn 4 p in
+  negb (sx_eqb (sx_tout sx_str (g_stringify_element s None)) (SL [SA "ok"; sx_str (stringify_element s None)]))
+  || negb (sx_eqb (sx_tout sx_str (g_stringify_element s QS)) (SL [SA "ok"; sx_str (stringify_element s QS)])).
+Definition diff_any (p : pystr) : bool := diff p || diff_root p || diff_se p.
+Definition first_some {A} (l : list (option A)) : option A :=
+  fold_right (fun o acc => match o with Some x => Some x | None => acc end) None l.
+Definition show_res (o : option pystr) : string :=
+  ("BEGIN" ++ nl ++ match o with None => "NONE" | Some p => "D" ++ String.concat "" (map (fun c => " " ++ show_N c) p) end ++ nl ++ "END")%string.
+Definition show_idx (l : list nat) : string :=
+  ("BEGIN" ++ nl ++ "I" ++ String.concat "" (map (fun i => " " ++ show_nat i) l) ++ nl ++ "END")%string.
+Definition alpha : list N := @ALPHA@.
+Definition root : pystr := s2p "root".
+'''
+
+
+def _tie_coq(ctx, name, text, timeout=1500):
+    import os
+    import re
+    gen_dir = os.path.join(ctx.scratch, "srctie")
+    fn = os.path.join(ctx.scratch, "tie_%s.v" % name)
+    with open(fn, "w") as f:
+        f.write(text)
+    rc, out = core.sh(["coqc", "-Q", core.THEORIES, "DD", "-Q", gen_dir, "DDGen", fn], timeout=timeout, cwd=ctx.scratch)
+    m = re.search(r'"BEGIN\n(.*)\nEND"', out, re.S)
+    if rc != 0 or not m:
+        return None, out[-600:]
+    return m.group(1).strip(), None
+
+
+def tie_candidate_sequences():
+    """key sequences whose rendered path goes through the generated and the hand-written parser (bounded exhaustive:
+    every str key of length <= 2 over the 23-character alphabet, every non-str atom, pairs over a hostile pool)"""
+    seqs = [[("k", s)] for s in all_strings(2)]
+    seqs += [[("k", a)] for a in NONSTR] + [[("x", i)] for i in (0, 1, 7)]
+    pool = ["a", "", "'", '"', "[", "]", ".", " ", ESC, "a.b", "a]['b", "__x", "root", 1, -1, 2.5, None, True]
+    seqs += [[("k", a), ("k", b)] for a in pool for b in pool]
+    seqs += [[("x", 1), ("k", a), ("k", -1)] for a in pool] + [[("k", "a"), ("k", 1.5), ("k", None), ("k", a)] for a in pool]
+    return seqs
+
+
+def on_source_tie_break(ctx, name, rec):
+    """the equivalence proof between the model regenerated from the current source and the hand-written model no longer
+    checks: look for a concrete argument on which the two differ (inside Coq), and judge it like any generated case"""
+    import os
+    from concurrent.futures import ThreadPoolExecutor
+    logging.disable(logging.CRITICAL)
+    out = {"status": rec.get("status")}
+    if ctx.replay:
+        out["searched"] = "nothing (a replay judges the recorded input only)"
+        return out
+    gen_vo = os.path.join(ctx.scratch, "srctie", "PathGen.vo")
+    if not os.path.exists(gen_vo):
+        out["searched"] = ("nothing inside Coq: there is no compiled generated model to compare (%s); the streams that exercise the "
+                           "parser run with thorough-size budgets" % rec.get("status"))
+        return out
+    ctx.ensure_built(HEADER_ALL + "\nFrom DD Require Import Path.PathTie.")
+    header = TIE_SEARCH_HEADER.replace("@ALPHA@", "[" + "; ".join(str(ord(c)) for c in TIE_ALPHA) + "]")
+    maxlen = 7 if ctx.thorough else 6
+    # A. every string "root" + w, w over the alphabet, |w| <= maxlen: sharded by the first two characters of w
+    prefixes = [(a, b) for a in TIE_ALPHA for b in TIE_ALPHA]
+    nsh = max(1, min(len(prefixes), 2 * core.NCPU))
+    shards = [prefixes[i::nsh] for i in range(nsh)]
+    jobs = [("s_short", header + "Eval vm_compute in show_res (search diff_any alpha 1 root).\n")]
+    for i, sh in enumerate(shards):
+        terms = "; ".join("search diff_any alpha %d (root ++ [%d; %d])" % (maxlen - 2, ord(a), ord(b)) for a, b in sh)
+        jobs.append(("s_%d" % i, header + "Eval vm_compute in show_res (first_some [%s]).\n" % terms))
+    # B. rendered paths of key sequences
+    seqs = tie_candidate_sequences()
+    for i in range(0, len(seqs), 400):
+        part = seqs[i:i + 400]
+        jobs.append(("k_%d" % i, header + "Definition kss : list path := [\n%s].\nEval vm_compute in show_idx (indexes_where (fun ks => diff_any (render ks)) 0 kss).\n"
+                     % ";\n".join(coq_path(ks) for ks in part)))
+    with ThreadPoolExecutor(max_workers=core.NCPU) as ex:
+        res = list(ex.map(lambda j: _tie_coq(ctx, j[0], j[1]), jobs))
+    strs, kss, errors = [], [], []
+    for (jn, _t), (txt, err) in zip(jobs, res):
+        if txt is None:
+            errors.append("%s: %s" % (jn, err))
+        elif txt.startswith("D"):
+            strs.append("".join(chr(int(x)) for x in txt.split()[1:]))
+        elif txt.startswith("I"):
+            base = int(jn.split("_")[1])
+            kss += [seqs[base + int(x)] for x in txt.split()[1:]]
+    strs.sort(key=lambda p: (len(p), p))
+    kss.sort(key=lambda ks: len(repr(ks)))
+    out["searched"] = ("every path string 'root' + w, w over %r, |w| <= %d (%d strings), and the rendered paths of %d key sequences: generated vs "
+                       "hand-written _path_to_elements (both literal_eval models, with and without root element) and stringify_element"
+                       % (TIE_ALPHA, maxlen, sum(len(TIE_ALPHA) ** k for k in range(maxlen + 1)), len(seqs)))
+    out["differing_path_strings"] = strs[:10]
+    out["differing_key_sequences"] = [[key_json(k) for k in ks] for ks in kss[:10]]
+    if errors:
+        out["search_errors"] = errors[:3]
+    # judged like any generated case: the strings through the parser's correspondence comparison (a mismatch between model and
+    # implementation is a correspondence break), the key sequences through the direct oracle + correspondence (a round-trip failure
+    # of the implementation is ctx.fail)
+    n0 = (len(ctx.failures), len(ctx.breaks), len(ctx.known_seen))
+    if kss:
+        run_sequences(ctx, "source_tie_key_sequences", [(ks, None) for ks in kss[:25]])
+    if strs:
+        cases, xcases = parser_string_cases(ctx, strs[:25], label="source_tie_strings")
+        ctx.coq_cases("source_tie_strings", HEADER, cases)
+        ctx.coq_cases("source_tie_strings_x", HEADER_ALL, xcases)
+    out["judged"] = {"new_failing_inputs": len(ctx.failures) - n0[0], "new_correspondence_breaks": len(ctx.breaks) - n0[1]}
+    # an input was found and reported: the rest of the run keeps its tier's budgets
+    ctx._c09_tie_found = (len(ctx.failures), len(ctx.breaks)) != n0[:2]
+    return out
+
+
 def run(ctx):
     import os
     logging.disable(logging.CRITICAL)
@@ -1995,6 +2148,9 @@ def run(ctx):
     only = set(only.split(",")) if only else None
 
     ctx._c09_batch = {"cases": [], "counts": []}
+    # the source tie of the parser is not intact and the search of on_source_tie_break found no argument on which the regenerated
+    # and the hand-written model differ: the streams that exercise the parser run with their thorough-size budgets
+    big = ctx.thorough or (ctx.tie_broken("pathparse") and not getattr(ctx, "_c09_tie_found", False))
 
     def on(name):
         if os.environ.get("C09_TIMING"):
@@ -2005,10 +2161,10 @@ def run(ctx):
     pool2 = list(all_strings(2))
     len3 = []
     if on("single"):
-        pool2, len3 = exhaustive_single(ctx)
+        pool2, len3 = exhaustive_single(ctx, big)
     pool = pool2 + len3[:2000]
     if on("embedded"):
-        embedded(ctx, pool, 6000 if ctx.thorough else 1200)
+        embedded(ctx, pool, 6000 if big else 1200)
     if on("multi_leaf"):
         multi_leaf(ctx, pool, 1500 if ctx.thorough else 300)
     if on("list_edits"):
@@ -2016,19 +2172,19 @@ def run(ctx):
     if on("path_calls"):
         path_calls(ctx, pool, 2000 if ctx.thorough else 110)
     if on("lru_calls"):
-        lru_calls(ctx, 2000 if ctx.thorough else 150)
+        lru_calls(ctx, 2000 if big else 150)
     if on("api_shapes"):
-        api_shapes(ctx, pool, 1200 if ctx.thorough else 130)
+        api_shapes(ctx, pool, 1200 if big else 130)
     if on("exotic_keys"):
         exotic_keys(ctx, pool, 1000 if ctx.thorough else 130)
     if on("literal_texts"):
         literal_texts(ctx, 6000 if ctx.thorough else 450)
     if on("parser_strings_x"):
-        parser_strings_x(ctx, 5000 if ctx.thorough else 400)
+        parser_strings_x(ctx, 5000 if big else 400)
     if on("parser_strings"):
-        parser_strings(ctx, 3000 if ctx.thorough else 600)
+        parser_strings(ctx, 3000 if big else 600)
     if on("extract_positions"):
-        extract_positions(ctx, 400 if ctx.thorough else 80)
+        extract_positions(ctx, 400 if big else 80)
     on("flush")
     flush(ctx)
     on("end")
